@@ -110,22 +110,26 @@ func VC13_Export() {
 	}
 	a := New(rib, saA, c13Chain(vChoice(5)))
 	rib.RegisterWithOptions(a, opts)
+	c13Other := func(tag string) {
+		if otherHas {
+			og := other.Get(pfx)
+			vAssert(og != nil && len(og.Paths()) == 1, "C13.other.kept."+tag)
+			if og != nil && len(og.Paths()) == 1 {
+				c13Same(otherBefore, c13Take(og.Paths()[0]), "C13.other."+tag)
+			}
+		}
+	}
+	c13Other("after.register")
+	c13Same(ribBefore, c13Take(p), "C13.source.after.register")
 	c13Same(ribBefore, c13Take(rib.Get(pfx).Paths()[0]), "C13.locrib.after.register")
 	a.ReplaceFilterChain(c13Chain(vChoice(5)))
 	vReach("export")
 	rewrites := kindA == 1 || kindA == 2
 	vKnown("C13-1", rewrites)
-	c13Same(ribBefore, c13Take(rib.Get(pfx).Paths()[0]), "C13.locrib.after.refresh")
+	// the checks that hold on every session kind first; the Loc-RIB check (known finding on rewriting sessions) last
+	c13Other("after.refresh")
 	vAssert(rib.Get(pfx).Paths()[0] == inRIB, "C13.locrib.sameobject")
-	if otherHas {
-		og := other.Get(pfx)
-		vAssert(og != nil && len(og.Paths()) == 1, "C13.other.kept")
-		if og != nil && len(og.Paths()) == 1 {
-			c13Same(otherBefore, c13Take(og.Paths()[0]), "C13.other.after.refresh")
-		}
-	}
-	// the caller's own object (what an Adj-RIB-In would hold) is untouched too
-	c13Same(ribBefore, c13Take(p), "C13.source.object")
+	c13Same(ribBefore, c13Take(rib.Get(pfx).Paths()[0]), "C13.locrib.after.refresh")
 }
 
 func VC13_Twin() {
